@@ -129,7 +129,7 @@ func runC18(c *mon.Ctx) {
 		route string
 	}
 	var held18ev []c18HeldEv
-	n := c.N(60000, 1500000)
+	n := c.N(60000, 240000) // the thorough tier runs with GOGC=1 (a collection after almost every allocation), which costs ~20x
 	for i := 0; i < n; i++ {
 		// ---- obtain an object
 		var x psatoken.IClaims
